@@ -80,8 +80,12 @@ class P(core.Prop):
         d.addCallbacks(lambda v: res.append(('ok', v)), lambda f: res.append(('fail', type(f.value).__name__)))
         data = cc.render_item(item_of(case))
         import random
-        for ch in cc.cut(random.Random(case.get('cut', 0)), data):
-            proto.dataReceived(ch)
+        try:
+            for ch in cc.cut(random.Random(case.get('cut', 0)), data):
+                proto.dataReceived(ch)
+        except Exception as e:
+            # the protocol threw Tor's bytes back at the transport: the result can no longer be what Tor sent
+            return {'result': None, 'error': 'dataReceived raised ' + type(e).__name__}
         if not res:
             return {'result': None, 'pending': True}
         if res[0][0] == 'fail':
@@ -128,6 +132,12 @@ class P(core.Prop):
 
     def _val(self, rng):
         r = rng.random()
+        if r < 0.07:
+            # a quoted string as Tor writes them (control-spec QuotedString), escapes inside: nothing in it
+            # may be decoded on the way (open finding C13-F1 covers the stripped quotes only)
+            q = rng.choice(['"', '"', "'"])
+            return q + ''.join(rng.choice(['\\\\', '\\n', '\\t', '\\r', '\\"', '\\101', '\\x41', 'C:', 'a', ' ', '1'])
+                               for _ in range(rng.randrange(1, 7))) + q
         if r < 0.5:
             return ''.join(rng.choice(ALPHA) for _ in range(rng.randrange(0, 8)))
         if r < 0.8:
